@@ -419,10 +419,14 @@ def bad_values(desc, rng):
             out += [("short-seq", good[:-1]), ("empty-seq", [])]
         d = struct_as_dict(desc, good)
         if d is not None and any(names):
-            nm = next(n for n in names if n)
-            dd = dict(d)
-            del dd[nm]
-            out += [("missing-key", dd), ("empty-dict", {})]
+            # every named member in turn (a member whose encoder accepts None - BOOL is truthiness-based - would otherwise hide
+            # behind a first member that does not)
+            named = [n for n in names if n]
+            for nm in (named if len(named) <= 8 else rng.sample(named, 8)):
+                dd = dict(d)
+                del dd[nm]
+                out.append(("missing-key", dd))
+            out.append(("empty-dict", {}))
         out += [("None", None), ("int", 5), ("object", object())]
         for i, (n, md) in enumerate(desc[1]):
             inner = bad_values(md, rng)
@@ -435,9 +439,11 @@ def bad_values(desc, rng):
     elif k == "udt":
         good = gen_value(desc, rng)
         if good:
-            dd = dict(good)
-            dd.pop(sorted(dd)[0])
-            out += [("missing-key", dd)]
+            keys_ = sorted(dd_ for dd_ in good)
+            for k_ in (keys_ if len(keys_) <= 8 else rng.sample(keys_, 8)):
+                dd = dict(good)
+                dd.pop(k_)
+                out.append(("missing-key", dd))
         out += [("None", None), ("int", 5), ("list", [1, 2]), ("empty-dict", {})] if good else [("None", None)]
     elif k == "ipv4":
         out += [("int-str", "300.1.1.1"), ("short", "1.2.3"), ("junk", "abc"), ("None", None), ("object", object()), ("v6", "::1")]
